@@ -81,6 +81,11 @@ func shouldKillJob(rj *execution.Job) bool {
 		return true
 	}
 
+	// Kill remaining tasks of a job which cannot create all of its tasks.
+	if _, ok := job.GetAdmissionErrorMessage(rj); ok {
+		return true
+	}
+
 	return false
 }
 
